@@ -161,9 +161,26 @@ func init() {
 		var jobs []check.Job
 		core := []string{"c07-join-vs-lastleave-close", "c07-lastleave-vs-lastleave", "c07-create-vs-create", "c10-eadd-eadd", "c10-join-join", "c10-tadd-same", "c10-asset-asset", "c09-quad-quad", "c09-quad-region", "c09-first-joins", "c06-lastleave-entity-vs-join"}
 		for _, b := range core {
-			jobs = append(jobs, s2jobOpt(b, bRace, budget, true, true), s2jobOpt(b, bPlain+1, budget, true, false))
+			pb := bPlain + 1
+			if tier != "thorough" && (b == "c07-create-vs-create" || b == "c07-lastleave-vs-lastleave") {
+				pb = bPlain // C07 runs these one bound deeper without the decorators
+			}
+			jobs = append(jobs, s2jobOpt(b, bRace, budget, true, true), s2jobOpt(b, pb, budget, true, false))
 		}
 		for _, p := range pairList {
+			if len(p) > 2 {
+				// three requests: expensive in the race build; sharded, thorough tier only
+				if tier == "thorough" {
+					for i := 0; i < 6; i++ {
+						pp, _ := json.Marshal(S2Params{Block: pairName(p...), Bound: bRace, Prod: true, ShardIdx: i, ShardN: 6})
+						jobs = append(jobs, check.Job{Kind: "s2", Name: "S2:" + pairName(p...) + "+race", Params: pp, BudgetS: budget, Race: true, CrashIsViolation: true})
+					}
+					jobs = append(jobs, s2jobOpt(pairName(p...), bPlain, budget, true, false))
+				} else {
+					jobs = append(jobs, s2jobOpt(pairName(p...), 1, budget, true, false))
+				}
+				continue
+			}
 			jobs = append(jobs, s2jobOpt(pairName(p...), bRace, budget, true, true))
 			if tier == "thorough" {
 				jobs = append(jobs, s2jobOpt(pairName(p...), bPlain, budget, true, false))
